@@ -27,7 +27,7 @@ from . import common as C
 sys.path.insert(0, os.path.join(C.ROOT, "gen"))
 
 PID = "C11"
-FILES = os.path.join(C.BUILD, PID, "files")
+FILES = os.path.join(C.BUILD, PID, "files_%d" % os.getpid())  # per process: concurrent runs do not collide
 
 DT = {
     "int8": "I8", "uint8": "U8", "int16": "I16", "uint16": "U16", "int32": "I32",
@@ -437,6 +437,31 @@ def gen_read_case(r, idx, sf_actual):
     name = os.path.join(FILES, stem + suffix)
     missing = access == "path" and r.random() < 0.03
     return dict(kind=kind, content=c, access=access, name=name, force_as=force, dtype=dtype, key=key, sf=sf, missing=missing)
+
+
+def fixed_read_cases(sf_actual):
+    """Corpus run before the random cases: the witness of
+    hdf5_cast_is_not_astype_refuted and a few boundary cases."""
+    sf = sorted(sf_actual)
+
+    def mk(kind, content, stem, suffix, access="path", force_as=None, dtype=None, key=None):
+        return dict(kind=kind, content=dict(content, kind=kind), access=access, name=os.path.join(FILES, stem + suffix),
+                    force_as=force_as, dtype=dtype, key=key, sf=sf, missing=False)
+
+    i32 = dict(dt="int32", shape=[2], data=[-5, 70000])
+    out = [
+        mk("h5", dict(tree=[("x", ("d", i32))]), "w0", ".hdf5", dtype="uint16"),
+        mk("h5", dict(tree=[("x", ("d", i32))]), "w1", ".hdf5", dtype="int8", access="bytesio", force_as="hdf5"),
+        mk("npy", dict(arr=i32), "w2", ".npy", dtype="uint16"),
+        mk("h5", dict(tree=[("g", ("g", []))]), "w3", ".hdf5"),
+        mk("npz", dict(entries=[("a", i32), ("arr_0", dict(dt="int8", shape=[], data=[7]))]), "w4", ".npz", key=""),
+        mk("npz", dict(entries=[("a", i32)]), "w5", ".npz"),
+        mk("wav", dict(width=3, chans=1, bytes=[1, 2, 3], samples=[0]), "w6", ".wav"),
+        mk("wav", dict(width=2, chans=3, bytes=[], samples=[]), "w7", ".wav", access="stream", force_as="wav"),
+        mk("npy", dict(arr=i32), "w8", ".npy", access="stream"),
+        mk("npy", dict(arr=i32), "w9", "", access="path"),
+    ]
+    return out
 
 
 def run_read_case(np, util, config, k):
@@ -889,14 +914,15 @@ def run(ctx):
     ctx.cov["trusted_base"].append("third-party codecs (wave, numpy, torch, h5py, soundfile/libsndfile) are oracles; _sphere.py is property C12/C13")
     r = ctx.rng
     model_ok = ok_gen
-    if ok_gen:
+    if ok_gen and not (pr and pr["ok"]):
+        # (a successful proof step has already built Model.vo; do not queue for the build lock again)
         okm, out = C.coq_make(["C11/Model.v"])
         if not okm:
             model_ok = False
             ctx.fail("model no longer compiles against the regenerated gen/ReadSignal.v", dict(correspondence="coq/C11/Model.v", log_tail=out[-1500:]), kind="tie", no_input=True)
 
     # ---- correspondence 1: suffix inference
-    n_names = ctx.scale(4000, 30000)
+    n_names = ctx.scale(3000, 30000)
     names = gen_names(r, n_names)
     icases = []
     for nm in names:
@@ -906,11 +932,13 @@ def run(ctx):
         icases.append((sfv, nm, obs))
         ctx.case(dict(fn="infer", sf=sfv, name=nm, observed=obs), nontrivial=True)
         ctx.count("infer:" + (obs[1] if obs[0] == "ok" else "Err " + obs[1]))
+    ctx.log("inference: %d names observed" % len(icases))
     # ---- correspondence 2: read_signal
-    n_read = ctx.scale(2500, 12000)
+    n_read = ctx.scale(2000, 12000)
     rcases = []
+    fixed = fixed_read_cases(sf_actual)
     for i in range(n_read):
-        k = gen_read_case(r, i, sf_actual)
+        k = fixed[i] if i < len(fixed) else gen_read_case(r, i, sf_actual)
         obs = run_read_case(np, util, config, k)
         rcases.append((k, obs))
         ctx.count("read:" + k["kind"] + ":" + k["access"])
@@ -922,8 +950,9 @@ def run(ctx):
         cobj = dict(fn="read_signal", kind=k["kind"], access=k["access"], name=os.path.basename(k["name"]), force_as=k["force_as"],
                     dtype=k["dtype"], key=k["key"], sf=k["sf"], content=k["content"], observed=obs[:2] if obs[0] == "err" else obs)
         ctx.case(cobj, nontrivial=obs[0] == "ok" or obs[1] in ("EIO", "EValue", "EKey", "EType"))
+    ctx.log("read_signal: %d cases observed" % len(rcases))
     # ---- correspondence 3: wds_read_signal on intact containers / mismatched keys / random bytes
-    n_wds = ctx.scale(800, 4000)
+    n_wds = ctx.scale(600, 4000)
     wcases = []
     for i in range(n_wds):
         u = r.random()
@@ -965,6 +994,14 @@ def run(ctx):
         "array or raise one of the exception classes the model predicts exactly (IOError/ValueError/KeyError/TypeError)"
     )
 
+    ctx.log("wds_read_signal: %d cases observed" % len(wcases))
+    # evidence samples: two of each kind rather than the first six names
+    ctx.cov["samples"] = (
+        [dict(fn="infer", sf=a, name=b, observed=c) for a, b, c in icases[2:4]]
+        + [dict(fn="read_signal", kind=k["kind"], access=k["access"], name=os.path.basename(k["name"]), force_as=k["force_as"],
+                dtype=k["dtype"], key=k["key"], content=k["content"], observed=o[:2]) for k, o in rcases[:2]]
+        + [dict(fn="wds_read_signal", key=key, sf=sfv, content=c, observed=o) for sfv, key, c, o, _ in wcases[:2]]
+    )
     # things observed that the model cannot even express are failures of the tie
     mism = []
     for k, obs in rcases:
@@ -981,26 +1018,32 @@ def run(ctx):
             body = "Definition cases : list (list str * str * res str) := [\n" + ";\n".join(
                 "([%s], %s, %s)" % ("; ".join(cstr(x) for x in sfv), cstr(nm), "Ok " + cstr(o[1]) if o[0] == "ok" else "Err " + o[1])
                 for sfv, nm, o in icases[s:s + shard]) + "].\nEval vm_compute in (mismatches_from 0 infer_case_ok cases).\n"
-            files.append(("infer_%d" % (s // shard), body))
+            files.append(("p%d_infer_%d" % (os.getpid(), s // shard), body))
             idx.append(("infer", s))
         shard_r = 250
         rc_ok = [(k, o) for k, o in rcases if o[0] in ("ok", "err")]
         for s in range(0, len(rc_ok), shard_r):
             body = "Definition cases : list rcase := [\n" + ";\n".join(coq_read_case(k, o) for k, o in rc_ok[s:s + shard_r]) + \
                 "].\nEval vm_compute in (mismatches_from 0 case_ok cases).\n"
-            files.append(("read_%d" % (s // shard_r), body))
+            files.append(("p%d_read_%d" % (os.getpid(), s // shard_r), body))
             idx.append(("read", s))
         wc_ok = [w for w in wcases if w[3][0] in ("none", "ok")]
         for s in range(0, len(wc_ok), shard_r):
             body = "Definition cases : list (list str * str * content * option arr) := [\n" + ";\n".join(
                 "([%s], %s, %s, %s)" % ("; ".join(cstr(x) for x in sfv), cstr(key), ccontent(c), "None" if o[0] == "none" else "Some " + carr(o[1]))
                 for sfv, key, c, o, _ in wc_ok[s:s + shard_r]) + "].\nEval vm_compute in (mismatches_from 0 wds_case_ok cases).\n"
-            files.append(("wds_%d" % (s // shard_r), body))
+            files.append(("p%d_wds_%d" % (os.getpid(), s // shard_r), body))
             idx.append(("wds", s))
         for w in wcases:
             if w[3][0] == "notarray":
                 mism.append(("wds_read_signal returned %s" % w[3][1], dict(key=w[1], content=w[2], sf=w[0])))
         res = C.coq_eval_many(ctx, files, REQ)
+        for fn in os.listdir(os.path.join(C.BUILD, PID)):
+            if fn.startswith("p%d_" % os.getpid()) or fn.startswith(".p%d_" % os.getpid()):
+                try:
+                    os.remove(os.path.join(C.BUILD, PID, fn))
+                except OSError:
+                    pass
         for (name, _), (ans, log), (what, base) in zip(files, res, idx):
             if ans is None or len(ans) != 1:
                 ctx.fail("case file %s does not evaluate" % name, dict(correspondence=name, log_tail=(log or "")[-1200:]), kind="tie", no_input=True)
@@ -1025,6 +1068,7 @@ def run(ctx):
     for what, detail in mism[:10]:
         ctx.fail(what, dict(correspondence="model evaluated by vm_compute vs implementation", input=detail), kind="correspondence")
 
+    ctx.log("model evaluated on all cases: %d agree, %d disagree" % (ctx.cov["traces_validated_against_impl"], len(mism)))
     # ---- search on the implementation itself
     bad = search(ctx, np, util, config, sf_actual, icases)
     for name, detail in bad[:10]:
